@@ -1315,7 +1315,7 @@ namespace xsimd
                         if (any(xge075t))
                         {
                             kernelC = xge075t;
-                            r0x = select(xge075t, x - batch_type(1.), x);
+                            r0x = select(xge075t, x - batch_type(1.), r0x);
                             r0z = select(xge075t, batch_type(1.), r0z);
                             r0s = select(xge075t, batch_type(-1.), r0s);
                             p = gammalnC(r0x);
